@@ -5,6 +5,8 @@
 wt=$1; shift
 export VERIF_REPO=$wt VERIF_BUILD=.build-mut
 cd /verif
+# cargo decides freshness by mtime: a change made before the last build in this target dir would be skipped
+(cd "$wt" && git diff --name-only | xargs -r touch)
 ./vbuild wild wild-b2 || { echo "build failed" >&2; exit 2; }
 for id in "$@"; do
   out=/dev/shm/mutwt_$(basename "$wt")_$id.log
